@@ -179,6 +179,9 @@ inductive DebugBody where
 /-- recognised bodies of `impl Serialize for SecretKey` -/
 inductive SerBody where
   | str (a : Arg)                              -- `<str as Serialize>::serialize(a, serializer)` / `serializer.serialize_str(a)`
+  /-- `if serializer.is_human_readable() { …human… } else { …binary… }`: a string either way, but possibly a
+      different one for human-readable formats (JSON, YAML) and for binary ones (bincode, postcard, …) -/
+  | strIf (human binary : Arg)
   deriving DecidableEq, Repr
 
 def argBytes (secret : Bytes) : Arg → Bytes
@@ -214,6 +217,18 @@ def jsonStr (b : Bytes) : Bytes := [34] ++ escDebug b ++ [34]
 def renderSerializeJson (body : SerBody) (secret : Bytes) : Bytes :=
   match body with
   | .str a => jsonStr (argBytes secret a)
+  | .strIf human _ => jsonStr (argBytes secret human)
+
+/-- a string in the compact binary format of the harness (`binser`): u32 little-endian length, then the bytes -/
+def lenPrefixed (b : Bytes) : Bytes :=
+  let n := b.length
+  [UInt8.ofNat (n % 256), UInt8.ofNat (n / 256 % 256), UInt8.ofNat (n / 65536 % 256), UInt8.ofNat (n / 16777216 % 256)] ++ b
+
+/-- the `SecretKey` through a serde format that is NOT human readable, by the extracted body -/
+def renderSerializeBinary (body : SerBody) (secret : Bytes) : Bytes :=
+  match body with
+  | .str a => lenPrefixed (argBytes secret a)
+  | .strIf _ binary => lenPrefixed (argBytes secret binary)
 
 /-- a rendering is constant when it does not depend on the secret -/
 def Constant (f : Bytes → Bytes) : Prop := ∀ s₁ s₂, f s₁ = f s₂
